@@ -121,6 +121,16 @@ class SkipStageHandler(StabilizeHandler[SkipStage]):
                                 stage_id=downstream.id,
                             )
                         )
+                    # Every downstream stage has finished already (an
+                    # early-firing join): nothing after this stage is left to
+                    # report the end of its branch (as in CompleteStage).
+                    if phase is None and all(d.status.is_complete for d in downstream_stages):
+                        txn.push_message(
+                            CompleteWorkflow(
+                                execution_type=execution.type.value,
+                                execution_id=execution.id,
+                            )
+                        )
                 elif phase is not None:
                     # Synthetic stage - notify parent
                     parent_id = stage.parent_stage_id
